@@ -36,9 +36,9 @@ FAMILIES = {
     "tri6": (2, lambda m: m.triangulate().add_midpoints_edges(), fem.RegionQuadraticTriangle),
 }
 MATERIALS = {
-    "neohooke": lambda: fem.NeoHooke(mu=1.0, bulk=3.0),
+    "neohooke": lambda: fem.NeoHooke(mu=1.25, bulk=3.0),
     "mooneyrivlin-ad": lambda: fem.Hyperelastic(th.mooney_rivlin, C10=0.25, C01=0.25) & fem.Volumetric(bulk=3.0),
-    "svk-ad": lambda: fem.Hyperelastic(th.saint_venant_kirchhoff, mu=1.0, lmbda=2.0),
+    "svk-ad": lambda: fem.Hyperelastic(th.saint_venant_kirchhoff, mu=1.25, lmbda=2.0),
 }
 
 
@@ -78,7 +78,7 @@ def view_records(out, quick):
     """material-level curves of the compressible view vs a direct material call with independently solved lateral stretches"""
     from scipy.optimize import brentq
     for mat in (["neohooke-soft"] if quick else ["neohooke-soft", "neohooke", "mooneyrivlin-ad"]):
-        umat = fem.NeoHooke(mu=1.0, bulk=2.0) if mat == "neohooke-soft" else MATERIALS[mat]()
+        umat = fem.NeoHooke(mu=1.25, bulk=2.0) if mat == "neohooke-soft" else MATERIALS[mat]()
 
         def P(l1, l2, l3):
             F = np.diag([l1, l2, l3]).reshape(3, 3, 1, 1)
@@ -191,7 +191,7 @@ def main():
             mesh = distort(fem.Cube(n=3), np.random.RandomState(5))
             f = fem.FieldContainer([fem.Field(fem.RegionHexahedron(mesh), dim=3)])
             bounds, lc = fem.dof.uniaxial(f, clamped=True)
-            solid = fem.SolidBody(fem.NeoHooke(mu=1.0, bulk=3.0), f)
+            solid = fem.SolidBody(fem.NeoHooke(mu=1.25, bulk=3.0), f)
             move = fem.math.linsteps([0, 0.4], num=nsub)[1:]
             fem.Job(steps=[fem.Step(items=[solid], ramp={bounds["move"]: move}, boundaries=bounds)]).evaluate(verbose=0, tol=1e-10)
             finals.append(q(f[0].values, S))
